@@ -121,7 +121,7 @@ GENERIC_PARAMS = ["<absent>", None, {}, {"x": 1, "_meta": {"progressToken": 0}},
                   {"progressToken": "tok", "progress": 1, "requestId": None},
                   {"requestId": 0, "progressToken": "", "name": "", "uri": "", "arguments": {}, "clientInfo": {}, "protocolVersion": ""}]
 IDS = IDS + H.SYNTAX_TEXT[:6]
-ODD_METHODS = ODD_METHODS + H.SYNTAX_TEXT + ["\ufeffping", "ping\ufeff", "pi\u0301ng", "Ping", "tools/Call"]
+ODD_METHODS = ODD_METHODS + H.EDGE_LONG + H.SYNTAX_TEXT + ["\ufeffping", "ping\ufeff", "pi\u0301ng", "Ping", "tools/Call"]
 BIG_PARAMS = {"blob": "b" * 300000, "name": "echo", "uri": "file:///ok", "arguments": {"text": "t" * 100000}}
 TYPE_CLASSES = [None, True, False, 0, 7, -1, 1.5, 0.0, "", "x", [], ["x"], {}, {"x": 1}, "<absent>"]
 CORE_METHODS = H.BUILTIN + ["notifications/cancelled", "notifications/progress", "custom/answers", "custom/raises", "nosuch"]
@@ -130,8 +130,8 @@ ARGUMENTS = ["<absent>", {}, {"text": "x"}, {"text": None}, {"text": [1, {"a": N
              None, [1], "s", 5, {"text": ""}, {"text": 0}, {"text": False}, {"text": []}, {"text": {}}, {"text": H.HOSTILE_TEXT},
              [], "", 0, False, {"": 1}, {"handler": 1}, {"name": "echo"}]
 ARGUMENTS_Q = ["<absent>", {}, {"text": ""}, {"text": 0}, {"other": 1}, None, [], "", 0, False, {"text": H.HOSTILE_TEXT}]
-NAME_EXTRAS = ["cafe\u0301", "caf\u00e9 ", "bom", "\ufeffecho", "STRASSE", "Strasse", "nosuch", "ECHO", "echo ", 5, 0, 7, 7.0, 1.5, True, False, None, ["echo"], {"name": "echo"}, [], {}, "<absent>"]
-URI_EXTRAS = ["file:///nosuch", "FILE:///OK", 5, 0, True, False, None, ["file:///ok"], {"uri": "file:///ok"}, [], {}, 1.5, "<absent>"]
+NAME_EXTRAS = H.EDGE_LONG + ["cafe\u0301", "caf\u00e9 ", "bom", "\ufeffecho", "STRASSE", "Strasse", "nosuch", "ECHO", "echo ", 5, 0, 7, 7.0, 1.5, True, False, None, ["echo"], {"name": "echo"}, [], {}, "<absent>"]
+URI_EXTRAS = H.EDGE_LONG + ["file:///nosuch", "FILE:///OK", 5, 0, True, False, None, ["file:///ok"], {"uri": "file:///ok"}, [], {}, 1.5, "<absent>"]
 INIT_PARAMS = ["<absent>", None, {}, {"protocolVersion": "2025-06-18", "clientInfo": {"name": "c", "version": "1"}, "capabilities": {}},
                {"protocolVersion": "2025-06-18"}, {"clientInfo": None}, {"clientInfo": 5, "capabilities": []},
                {"clientInfo": {"name": []}}, {"capabilities": None, "x": [1]}, {"_meta": {}},
@@ -237,6 +237,8 @@ def directed(budget):
         if me != "<absent>":
             out.append(mk(me, 1, {}, "list"))
             out.append(mk(me, "<absent>", {}, "list"))
+            out.append(mk(me, 1, {}, "dict"))
+            out.append(mk(me, "<absent>", {}, "typed-response"))
     # size: one message far above every buffer (300 KB of params, 1 MB method name), for every core method
     for me in CORE_METHODS + ["custom/none", "reenter/request/raises"]:
         for i in ("<absent>", 0, "big"):
@@ -363,7 +365,7 @@ def seeded(rng, meths):
         kw["server"] = "overrides"
     if rng.random() < 0.2:
         kw["sid"] = rng.choice(SIDS)
-    return mk(me, i, p, rng.choice(["legacy", "legacy", "legacy", "parse", "typed", "list"]), **kw)
+    return mk(me, i, p, rng.choice(["legacy", "legacy", "legacy", "parse", "typed", "typed", "list", "dict", "typed-response"]), **kw)
 
 
 def sequences(rng, n):
@@ -453,6 +455,8 @@ def expectation(case):
     custom = H.custom_table(variant)
     if case.get("env") == "list":
         return {"class": "batch"}  # a list is C13's subject; here only "never raises"
+    if case.get("env") in ("dict", "typed-response"):
+        return {"class": "not-an-incoming-request-object"}  # a plain dict / a typed response object: only "never raises"
     if msg.get("jsonrpc") != "2.0":
         return {"class": "not-jsonrpc-2.0"}
     if "result" in msg or "error" in msg:
